@@ -37,8 +37,8 @@ class StyleConversion:
 
 
 LOWER_CASE = (str.lower, str.lower)
-CAMEL_CASE = (str.lower, str.title)
-PASCAL_CASE = (str.title, str.title)
+CAMEL_CASE = (str.lower, str.capitalize)  # `str.title` makes upper each letter following a digit
+PASCAL_CASE = (str.capitalize, str.capitalize)
 UPPER_CASE = (str.upper, str.upper)
 
 STYLE_CONVERSIONS = {
